@@ -193,9 +193,9 @@ type pRun struct {
 	programs int
 }
 
-// runPipeline generates and compiles the packages, serves every group's requests and returns
-// the abstract event log.  specs maps package id -> ASpec.
-func runPipeline(c *core.Check, specs map[string]*aspec.ASpec, groups []pGroup) (*pRun, bool) {
+// driveGroups generates and compiles the packages (pre-flight: packages that do not build are
+// left out and listed), runs every group through the reflective driver and returns the raw events.
+func driveGroups(c *core.Check, specs map[string]*aspec.ASpec, groups []pGroup, kind string) (run *pRun, evs []json.RawMessage, kept []pGroup, ok bool) {
 	ids := make([]string, 0, len(specs))
 	for id := range specs {
 		ids = append(ids, id)
@@ -208,10 +208,10 @@ func runPipeline(c *core.Check, specs map[string]*aspec.ASpec, groups []pGroup) 
 	sc, err := core.BuildScratch(jobs, false)
 	if err != nil {
 		c.HarnessError(err.Error())
-		return nil, false
+		return nil, nil, nil, false
 	}
 	defer sc.Close()
-	run := &pRun{caseInfo: map[string]any{}, raw: map[string][]string{}}
+	run = &pRun{caseInfo: map[string]any{}, raw: map[string][]string{}}
 	for id, r := range sc.Excluded {
 		run.excluded = append(run.excluded, id+": "+trunc(r.Err+strings.Join(r.TypeErr, "; ")+strings.Join(r.ParseErr, "; "), 200))
 	}
@@ -222,24 +222,37 @@ func runPipeline(c *core.Check, specs map[string]*aspec.ASpec, groups []pGroup) 
 		built[p] = true
 	}
 	var dgroups []driver.Group
-	var kept []pGroup
 	for _, g := range groups {
 		if !built[g.Pkg] {
 			continue
 		}
 		api := g.API
 		api.Schemes = schemeInfos(*g.ASpec)
-		dgroups = append(dgroups, driver.Group{Pkg: g.Pkg, Kind: "pipeline", API: api, Cases: g.Cases})
+		dgroups = append(dgroups, driver.Group{Pkg: g.Pkg, Kind: kind, API: api, Cases: g.Cases})
 		kept = append(kept, g)
 		run.requests += len(g.Cases)
 	}
 	if len(dgroups) == 0 {
 		c.HarnessError(fmt.Sprintf("no package of this universe builds (excluded: %v)", run.excluded))
-		return nil, false
+		return nil, nil, nil, false
 	}
-	evs, _, err := sc.Run(dgroups, 15*time.Minute)
+	evs, _, err = sc.Run(dgroups, 15*time.Minute)
 	if err != nil {
 		c.HarnessError(err.Error())
+		return nil, nil, nil, false
+	}
+	for _, g := range kept {
+		for _, rc := range g.Cases {
+			run.caseInfo[rc.ID] = map[string]any{"pkg": g.Pkg, "api": g.API, "request": map[string]any{"method": rc.Method, "path": rc.Path, "rawQuery": rc.RawQuery, "headers": rc.Headers}}
+		}
+	}
+	return run, evs, kept, true
+}
+
+// runPipeline serves every group's requests and returns the abstract event log for Trace_Pipeline.
+func runPipeline(c *core.Check, specs map[string]*aspec.ASpec, groups []pGroup) (*pRun, bool) {
+	run, evs, kept, ok := driveGroups(c, specs, groups, "pipeline")
+	if !ok {
 		return nil, false
 	}
 	specText := map[string]string{}
@@ -294,11 +307,6 @@ func runPipeline(c *core.Check, specs map[string]*aspec.ASpec, groups []pGroup) 
 			bs, _ := base64.StdEncoding.DecodeString(body)
 			p, _ := e["panic"].(string)
 			add(map[string]any{"ev": "Done", "status": e["status"], "writes": e["writes"], "panic": trunc(p, 300), "specBody": gi >= 0 && string(bs) == specText[kept[gi].Pkg]})
-		}
-	}
-	for _, g := range kept {
-		for _, rc := range g.Cases {
-			run.caseInfo[rc.ID] = map[string]any{"pkg": g.Pkg, "api": g.API, "request": map[string]any{"method": rc.Method, "path": rc.Path, "rawQuery": rc.RawQuery, "headers": rc.Headers}}
 		}
 	}
 	return run, true
